@@ -195,7 +195,7 @@ func TestC07_HCLDec(t *testing.T) {
 }
 
 func TestC07_Dynblock(t *testing.T) {
-	hx.Run(t, "C07", "Dynblock", 3000,
+	hx.Run(t, "C07", "Dynblock", 4500,
 		"spec tree + body with `dynamic` blocks (nested, custom iterator names, an inner iterator shadowing an outer one, an iterator named like the root variable its own for_each reads, labels and content using iterators); native and JSON; R = roots of dynblock.ExpandVariablesHCLDec(body, spec) united with dynblock.VariablesHCLDec(body, spec); oracle: R is a subset of the free variables of the tree computed with iterator scoping (an iterator name is reported only where it really denotes a root variable), and Decode(Expand(body, ctx), spec, ctx) with ctx restricted to R, and with every variable outside R changed, gives the identical value and diagnostics as with the full scope; also ExpandVariablesHCLDec alone is sufficient for Expand; non-trivial = a dynamic block whose content or labels use an iterator, with some variable outside R and some inside; distinct by (spec dump, body dump)",
 		func(c *hx.Case) {
 			t := c.T
@@ -281,6 +281,48 @@ func TestC07_Dynblock(t *testing.T) {
 				}
 			}
 			usesIter := g.feat["label_from_iterator"] || g.outer || g.usedIter
+			// the documented two-phase flow (ext/dynblock/README.md): expansion variables ->
+			// Expand -> hcldec.Variables of the expanded body -> Decode; some collections may be
+			// unknown at that point, which turns their dynamic blocks into placeholder blocks
+			if nativeBody, have := forms["native"]; have {
+				nativeSpec := spec
+				fullU := evalCtx(sc)
+				for _, name := range sc.Names {
+					v := sc.Vals[name]
+					if v.IsKnown() && !v.IsNull() && v.Type().IsCollectionType() && rapid.IntRange(0, 1).Draw(t, "unknown_collection") == 0 {
+						fullU.Variables[name] = cty.UnknownVal(v.Type())
+						c.Class("two_phase_with_unknown_collection")
+					}
+				}
+				restrict := func(keep map[string]bool) *hcl.EvalContext {
+					out := &hcl.EvalContext{Variables: map[string]cty.Value{}, Functions: ctyFuncs}
+					for n, v := range fullU.Variables {
+						if keep[n] {
+							out.Variables[n] = v
+						}
+					}
+					return out
+				}
+				var ev, hv []hcl.Traversal
+				c.Guard("ExpandVariablesHCLDec", func() { ev = dynblock.ExpandVariablesHCLDec(nativeBody, nativeSpec) })
+				RE := rootNames(ev)
+				c.Guard("hcldec.Variables(expanded)", func() { hv = hcldec.Variables(dynblock.Expand(nativeBody, restrict(RE)), nativeSpec) })
+				R2 := map[string]bool{}
+				for n := range RE {
+					R2[n] = true
+				}
+				for n := range rootNames(hv) {
+					R2[n] = true
+				}
+				pruned := restrict(R2)
+				var v1, v2 cty.Value
+				var d1, d2 hcl.Diagnostics
+				c.Guard("Decode(Expand full)", func() { v1, d1 = hcldec.Decode(dynblock.Expand(nativeBody, fullU), nativeSpec, fullU) })
+				c.Guard("Decode(Expand pruned)", func() { v2, d2 = hcldec.Decode(dynblock.Expand(nativeBody, pruned), nativeSpec, pruned) })
+				if d1.HasErrors() != d2.HasErrors() || (!d1.HasErrors() && !v1.RawEquals(v2)) {
+					c.Failf("two-phase-variables-insufficient", "with the context restricted to ExpandVariablesHCLDec + hcldec.Variables(expanded) {%s}: %#v (err=%v: %s); with the full context: %#v (err=%v: %s)", setString(R2), v2, d2.HasErrors(), diagStr(d2), v1, d1.HasErrors(), diagStr(d1))
+				}
+			}
 			c.Done(proper && some && g.nDyn > 0 && usesIter, ms.Dump()+"|"+dump)
 		})
 }
